@@ -24,6 +24,9 @@ unsigned long g_pos;        /* arbitrary observer position */
 unsigned char g_byte;       /* file[g_pos], meaningful iff g_pos < g_file_len */
 int g_write_fail_allowed = 1;
 long nondet_ssize(void);
+#ifdef VERIF_TRACK_WFAIL
+int g_wfail;                /* some write(2) returned -1 (only tracked in the group that proves write_evbuf itself) */
+#endif
 
 ssize_t write(int fd, const void *buf, size_t n)
 {
@@ -31,6 +34,9 @@ ssize_t write(int fd, const void *buf, size_t n)
 	long r = nondet_ssize();
 	/* POSIX: -1 on error; otherwise between 1 and n bytes (0 iff n == 0) */
 	__CPROVER_assume(r == -1 || (n == 0 ? r == 0 : (r >= 1 && (unsigned long) r <= n)));
+#ifdef VERIF_TRACK_WFAIL
+	if (r == -1) g_wfail = 1;
+#endif
 	if (r > 0) {
 		if (g_pos >= g_file_len && g_pos - g_file_len < (unsigned long) r)
 			g_byte = ((const unsigned char *) buf)[g_pos - g_file_len];
